@@ -205,3 +205,11 @@ package vm
 //@ func (g *GasBudget) IsZero() (z bool)
 //@   serves C31
 //@   ensures z == (g.ExecutionGas == 0 && g.StateGas == 0)
+
+// ---------------------------------------------------------------------------
+// Getters used by callers in package core
+// ---------------------------------------------------------------------------
+
+//@ func (evm *EVM) ChainConfig() (c *params.ChainConfig)
+//@   serves C31
+//@   ensures c == evm.chainConfig
